@@ -18,6 +18,7 @@
 import Lattigo.Proofs.SamplerSession
 import Lattigo.Proofs.SamplerCount
 import Lattigo.Proofs.SamplerKY
+import Lattigo.Proofs.SamplerPRNG
 namespace Lattigo.C17
 open Lattigo Lattigo.Gen Lattigo.Sampler
 
@@ -398,6 +399,34 @@ theorem readAndAdd_gauss_mont (orc : Slow) (fuel sigma bound N : Nat) (qs : List
   | exhausted => rfl
   | panic => rfl
 
+/-! ## 6. The keyed PRNG: state = (key, position) -/
+
+/-- **prng_key_replays (refinement of `Key()`).**  For an arbitrary XOF, after ANY history of the
+    generator `p`, `NewKeyedPRNG(p.Key())` produces the stream of `p` from its start, byte for
+    byte; in a script, `rekey` (continue with `NewKeyedPRNG(p.Key())`) is indistinguishable from
+    `Reset()`.  (This is what the doc comment of `Key()` promises; the tie `C17 prng …` and the
+    probes `prng-*` check it on the real generator for `NewPRNG()` and `NewKeyedPRNG(k)`.) -/
+theorem prng_key_replays (xof : XOF) (p : PRNG) (n : Nat) (ops : List PRNG.Op) :
+    PRNG.stream xof (PRNG.new p.getKey) n = PRNG.stream xof p n ∧
+    ((PRNG.new p.getKey).read xof n).1 = PRNG.stream xof p n ∧
+    PRNG.run xof p (.rekey :: ops) = PRNG.run xof p (.reset :: ops) :=
+  ⟨(PRNG.rekey_replays xof p n).2, (PRNG.rekey_replays xof p n).1, rfl⟩
+
+/-- **prng_reads_are_one_stream.**  Every `Read` returns the next piece `[pos, pos+n)` of the one
+    stream determined by the key; the chunking of the reads is irrelevant; `Reset()` restarts it;
+    the key is the one given at construction and never changes. -/
+theorem prng_reads_are_one_stream (xof : XOF) (p : PRNG) (a b : Nat) (k : Bytes) :
+    (p.read xof a).1 = (PRNG.stream xof p (p.pos + a)).drop p.pos ∧
+    (p.read xof a).1 ++ ((p.read xof a).2.read xof b).1 = (p.read xof (a + b)).1 ∧
+    (p.reset.read xof a).1 = PRNG.stream xof p a ∧
+    (PRNG.new k).getKey = k ∧ (p.read xof a).2.getKey = p.getKey ∧ p.reset.getKey = p.getKey :=
+  ⟨PRNG.read_eq_stream xof p a, (PRNG.read_read xof p a b).1, PRNG.reset_replays xof p a, rfl, rfl, rfl⟩
+
+/-- a concrete script (XOF = position + first key byte): read 2, read 0, key, read 3, rekey, read 4 -/
+example : PRNG.run (fun k i => i + k.getD 0 0) (PRNG.new [7, 9])
+      [.read 2, .read 0, .key, .read 3, .rekey, .read 4, .reset, .read 1] =
+    [[7, 8], [], [7, 9], [9, 10, 11], [], [7, 8, 9, 10], [], [7]] := by decide
+
 end Lattigo.C17
 
 #print axioms Lattigo.C17.uniform_range
@@ -421,3 +450,5 @@ end Lattigo.C17
 #print axioms Lattigo.C17.mont_eq_mform_plain_gauss
 #print axioms Lattigo.C17.readAndAdd_eq_add_read_gauss
 #print axioms Lattigo.C17.readAndAdd_gauss_mont
+#print axioms Lattigo.C17.prng_key_replays
+#print axioms Lattigo.C17.prng_reads_are_one_stream
